@@ -43,3 +43,77 @@ Definition sql_diff_at (c : sql_case) : option nat :=
   | Err x, Err y => if dec_b gen_error_eq_dec x y then None else Some 0
   | _, _ => Some 0
   end.
+
+(* ------------------------------------------------------------------------------------------------------------
+   K-eng-sqlite: the engine model against libsqlite3.  For one migration: the catalog libsqlite3 held before it
+   (read back through PRAGMAs, printed as a term), the inputs of the generator, and what libsqlite3 answered when it
+   executed the IMPLEMENTATION's statements: the catalog afterwards, or the flat position of the first failing
+   statement.  The model executes the MODEL's statements (gen_plan) with [exec]. *)
+From VV.SQLITE Require Export Engine.
+
+Fixpoint remove_first {A} (eq : A -> A -> bool) (x : A) (l : list A) : option (list A) :=
+  match l with
+  | [] => None
+  | y :: r => if eq x y then Some r else option_map (cons y) (remove_first eq x r)
+  end.
+Fixpoint perm_eqb {A} (eq : A -> A -> bool) (a b : list A) : bool :=
+  match a with
+  | [] => match b with [] => true | _ => false end
+  | x :: r => match remove_first eq x b with Some b' => perm_eqb eq r b' | None => false end
+  end.
+
+Definition opt_str_eqb (a b : option string) : bool := dec_b (option_eq_dec string_dec) a b.
+Definition strs_eqb (a b : list string) : bool := dec_b (list_eq_dec string_dec) a b.
+Definition action_or_default (a : option ref_action) : ref_action := match a with Some x => x | None => NoAction end.
+Definition ccol_equiv (a b : ccol) : bool :=
+  (String.eqb (cc_name a) (cc_name b) && ieq (cc_type a) (cc_type b) && Bool.eqb (cc_notnull a) (cc_notnull b)
+   && opt_str_eqb (cc_default a) (cc_default b) && Nat.eqb (cc_pk a) (cc_pk b))%bool.
+Definition sfk_equiv (a b : sfk) : bool :=
+  (strs_eqb (sf_cols a) (sf_cols b) && String.eqb (sf_table a) (sf_table b) && strs_eqb (sf_refcols a) (sf_refcols b)
+   && dec_b ref_action_eq_dec (action_or_default (sf_on_delete a)) (action_or_default (sf_on_delete b))
+   && dec_b ref_action_eq_dec (action_or_default (sf_on_update a)) (action_or_default (sf_on_update b)))%bool.
+Definition ctable_equiv (a b : ctable) : bool :=
+  (String.eqb (ct_name a) (ct_name b) && list_eqb ccol_equiv (ct_cols a) (ct_cols b)
+   && Bool.eqb (ct_autoinc a) (ct_autoinc b) && perm_eqb sfk_equiv (ct_fks a) (ct_fks b)
+   && perm_eqb check_eqb (ct_checks a) (ct_checks b))%bool.
+Definition cindex_equiv (a b : cindex) : bool :=
+  (String.eqb (ci_name a) (ci_name b) && String.eqb (ci_table a) (ci_table b) && Bool.eqb (ci_unique a) (ci_unique b)
+   && strs_eqb (ci_cols a) (ci_cols b))%bool.
+Definition cat_equiv (a b : catalog) : bool :=
+  (perm_eqb ctable_equiv (cat_tables a) (cat_tables b) && perm_eqb cindex_equiv (cat_indexes a) (cat_indexes b))%bool.
+
+Record eng_case := mkEngCase {
+  e_fk : bool;                          (* PRAGMA foreign_keys *)
+  e_pre : catalog;                      (* libsqlite3's catalog before the migration *)
+  e_baseline : schema;
+  e_actions : list action;
+  e_real : result catalog nat;          (* libsqlite3: catalog afterwards / flat index of the first failing statement *)
+  e_believed_ok : bool }.               (* O-C02's verdict: real catalog = catalog of the believed post schema *)
+
+Definition post_schema (c : eng_case) : schema := fold_left apply_ignoring (e_actions c) (e_baseline c).
+
+(* sub-checks: 1 = exec agrees with libsqlite3 (catalog / first error position);
+               2 = catalog_of (believed post schema) vs the real catalog agrees with the Python oracle's verdict *)
+Definition check_eng (c : eng_case) : list nat :=
+  match gen_plan (e_baseline c) (e_actions c) with
+  | Err _ => []                                        (* nothing was executed *)
+  | Ok ls =>
+      (match exec_all (e_fk c) (e_pre c) (List.concat ls) 0, e_real c with
+       | Ok m, Ok r => if cat_equiv m r then [] else [1%nat]
+       | Err (i, _), Err j => if Nat.eqb i j then [] else [1%nat]
+       | _, _ => [1%nat]
+       end)
+      ++ (match e_real c with
+          | Ok r => if Bool.eqb (cat_equiv (catalog_of (post_schema c)) r) (e_believed_ok c) then [] else [2%nat]
+          | Err _ => []
+          end)
+  end.
+
+Fixpoint eng_mismatches_from (i : nat) (cs : list eng_case) : list (nat * list nat) :=
+  match cs with
+  | [] => []
+  | c :: r => match check_eng c with
+              | [] => eng_mismatches_from (S i) r
+              | l => (i, l) :: eng_mismatches_from (S i) r
+              end
+  end.
